@@ -83,9 +83,10 @@ def install(world):
         func=I2T, serves=["C10"],
         scenarios=[Scenario("tip_int:int", lambda ex: {"tip_int": sint("tip_int")})],
         raises=[("ValueError", "tip_int < 1 or tip_int > 8")],
+        returns="tip_of_int(tip_int)",
         ensures=[("member", "is_tip(result) and result.value == pow2(tip_int - 1)", ["C10"])],
         native={"imports": ["from robotools.evotools.types import int_to_tip"], "call": "int_to_tip(tip_int)",
-                "clause_text": {"member": "type(result).__name__ == 'Tip' and result.value == 2 ** (tip_int - 1)"}},
+                "returns_native": False, "clause_text": {"member": "type(result).__name__ == 'Tip' and result.value == 2 ** (tip_int - 1)"}},
     ))
 
     scen = [
